@@ -310,6 +310,71 @@ def check_case(seed, case, cfg_index, perturb):
     return None
 
 
+@rechecked
+def check_free_region(recursive, n_users):
+    """
+    The walker run on a FREE-STANDING region (rewrite_region on a Region that no operation owns): a pattern retypes the block argument of the entry block
+    - the block has no parent op, so nothing can be told to a listener about "the parent op", but the action flag and the walker's result must still
+    report the change, and a recursive walk must reach a fixpoint.
+    """
+    from xdsl.dialects import test
+    from xdsl.dialects.builtin import IntAttr, StringAttr, i32, i64
+    from xdsl.ir import Block, Region
+    from xdsl.pattern_rewriter import PatternRewriter, PatternRewriteWalker, RewritePattern
+
+    blk = Block(arg_types=[i32])
+    ops = [test.TestOp(operands=[blk.args[0]], attributes={"kind": StringAttr("retype" if i == 0 else "plain"), "id": IntAttr(i)}) for i in range(n_users)]
+    blk.add_ops(ops + [test.TestTermOp()])
+    region = Region([blk])
+    log = {"violations": [], "n": 0}
+
+    def text():
+        return "|".join(f"{o.name}{sorted((k, str(v)) for k, v in o.attributes.items())}{[str(x.type) for x in o.operands]}" for o in blk.ops) + str([str(a.type) for a in blk.args])
+
+    class Retype(RewritePattern):
+        def match_and_rewrite(self, op, rewriter: PatternRewriter):
+            k = op.attributes.get("kind")
+            if k is None or k.data != "retype":
+                return
+            before = text()
+            rewriter.replace_value_with_new_type(blk.args[0], i64)
+            if text() != before and not rewriter.has_done_action:
+                log["violations"].append("the pattern changed the type of a block argument but has_done_action is False")
+            op.attributes["kind"] = StringAttr("plain")
+            rewriter.notify_op_modified(op)
+            log["n"] += 1
+
+    t0 = text()
+    try:
+        ret = PatternRewriteWalker(Retype(), apply_recursively=recursive).rewrite_region(region)
+    except Exception as e:  # noqa: BLE001
+        return {"key": "C11/free-region", "what": f"rewrite_region raised {type(e).__name__}: {str(e)[:200]}", "inputs": {}}
+    if log["violations"]:
+        return {"key": "C11/free-region", "what": log["violations"][0], "inputs": {}}
+    if text() != t0 and not ret:
+        return {"key": "C11/free-region", "what": "the IR changed but rewrite_region returned False", "inputs": {}}
+    if str(blk.args[0].type) != "i64":
+        return {"key": "C11/free-region", "what": "the block argument was not retyped", "inputs": {}}
+    if recursive:
+        t1 = text()
+        PatternRewriteWalker(Retype(), apply_recursively=False).rewrite_region(region)
+        if text() != t1:
+            return {"key": "C11/free-region", "what": "after a recursive walk returned, a further sweep still changes the IR", "inputs": {}}
+    return None
+
+
+def explore_free_region(tier, seed):
+    fails, cases = [], 0
+    for rec in (False, True):
+        for n in (1, 2, 3):
+            cases += 1
+            f = check_free_region(rec, n)
+            if f and not fails:
+                fails.append(f)
+    return {"cases": cases, "failures": fails, "exhaustive": True, "nontrivial": cases,
+            "bound": "rewrite_region on a free-standing region whose entry-block argument is retyped by a pattern (1-3 users, recursive or not): action flag, returned flag, fixpoint"}
+
+
 def explore(tier, seed, shard=0, shards=1):
     n = 120 if tier == "quick" else 1600
     fails, cases = [], 0
@@ -328,4 +393,4 @@ def explore(tier, seed, shard=0, shards=1):
 
 
 SHARDS = 8
-NATIVE = [(f"walker-postconditions-{i}", (lambda i: lambda tier, seed: explore(tier, seed, i, SHARDS))(i)) for i in range(SHARDS)]
+NATIVE = [(f"walker-postconditions-{i}", (lambda i: lambda tier, seed: explore(tier, seed, i, SHARDS))(i)) for i in range(SHARDS)] + [("free-standing-region", explore_free_region)]
